@@ -681,6 +681,9 @@ def parse_vc(path):
                     if not m2:
                         raise ExtractError(f'{path}: bad #abstract-let (need `NAME sha=<hash> = expr`): {s2}')
                     fn.setdefault('abstract', []).append((m2.group(1), m2.group(3).strip(), m2.group(2)))
+                elif s2.startswith('#enumerate-loop '):
+                    # R2: `for (I, X) in E.iter().enumerate() { B }`  ->  index loop (n-th loop of the body)
+                    fn.setdefault('enum_loops', []).append(int(s2.split()[1]))
                 elif s2.startswith('#ascribe '):
                     m2 = re.match(r'#ascribe\s+(\w+)\s*:\s*(.+)$', s2)
                     if not m2:
@@ -837,6 +840,32 @@ def extract_fn(repo, spec, features):
         edits.add(T[e - 1].end, T[e - 1].end, f'{GB}){GE}', 'ghost', 'ret name')
     # (an empty marker pair is emitted even without a contract: it anchors the vacuity canary)
     edits.add(T[bo].start, T[bo].start, f'\n{GB}\n{spec["spec"]}\n{GE}\n', 'ghost', 'spec')
+
+    # ---- R2: `for (i, x) in E.iter().enumerate() { B }`
+    #        ->  `let mut i = 0; while i < E.len() { let x = &E[i]; B i += 1; }`
+    # std semantics of Enumerate<slice::Iter>; refused if B contains `continue` (the increment would be
+    # skipped) or if E is not a plain path expression.
+    lps0 = [i for i in loops_in(sf, bo + 1, bc) if alive(T[i])]
+    for n_ in spec.get('enum_loops', []):
+        if n_ - 1 >= len(lps0):
+            raise ExtractError(f'lost anchor: loop {n_} (enumerate) of {spec["name"]}')
+        li = lps0[n_ - 1]
+        b = find_block_open(sf, li + 1, bc)
+        be = sf.pairs[b]
+        hdr = T[li:b]
+        # expected token shape: for ( I , X ) in PATH . iter ( ) . enumerate ( )
+        txt = ' '.join(t.text for t in hdr)
+        m = re.fullmatch(r'for \( (\w+) , (\w+) \) in ((?:\w+ \. )*\w+) \. iter \( \) \. enumerate \( \)', txt)
+        if not m:
+            raise ExtractError(f'R2 does not apply to loop {n_} of {spec["name"]}: {txt}')
+        ivar, xvar, expr = m.group(1), m.group(2), m.group(3).replace(' ', '')
+        if any(is_id(T[k], 'continue') for k in range(b, be)):
+            raise ExtractError(f'R2 refused: loop {n_} of {spec["name"]} contains `continue`')
+        edits.add(T[li].start, T[b].start, f'let mut {ivar} = 0; while {ivar} < {expr}.len() ', 'rewrite', 'R2 header')
+        edits.add(T[b].end, T[b].end, f' let {xvar} = &{expr}[{ivar}];', 'rewrite', 'R2 bind')
+        edits.add(T[be].start, T[be].start, f' {ivar} += 1; ', 'rewrite', 'R2 step')
+        log.append({'step': 'R2', 'line': sf.line_of(T[li].start), 'before': txt.replace(' ', ''),
+                    'after': f'let mut {ivar} = 0; while {ivar} < {expr}.len() {{ let {xvar} = &{expr}[{ivar}]; .. {ivar} += 1; }}'})
 
     # ---- E5: loops
     lps = [i for i in loops_in(sf, bo + 1, bc) if alive(T[i])]
